@@ -147,7 +147,8 @@ def run(fx, chk, tier):
         if body is None:
             continue
         for b_, t_ in body.calls():
-            if t_["callee"].get("trait") in WRITE_TRAITS:
+            if t_["callee"].get("trait") in WRITE_TRAITS and (t_["callee"].get("path") or "").split("::")[-1] != "flush":
+                # flush moves no byte of the output and no position
                 direct.setdefault(fid, set()).add((t_["callee"].get("path") or "").split("::")[-1])
 
     def is_encoder(fid):
